@@ -94,8 +94,24 @@ def rule_clauses(name, pod_table, ghost, ts, args, res, spec_name=None):
         try:
             out.extend(sp(Env(pod_table, ghost), ts, *(list(args) + [res])))
         except (AttributeError, KeyError, TypeError) as e:
-            # the contract could not even be evaluated on this result (None or another kind of value than
-            # the contract speaks about): the result has not the contracted shape
+            # the contract could not even be evaluated.  If that is because of the RESULT (None where the contract speaks
+            # about a value, or a value of another kind), the result has not the contracted shape: a failed clause, replayed
+            # natively like any other.  Anything else (a named group the pattern no longer has, an argument of another
+            # kind) means the contract no longer fits the rule's signature: nothing is decided.
             from contracts.registry import SPEC_PROPS
+            from spec.views import kind as _kind
+            res_problem = res is None or "NoneType" in str(e)
+            if not res_problem:
+                try:
+                    # does the contract evaluate on a result of each other kind?  then the kind of the result is the problem
+                    res_problem = _kind(res) not in ("Time", "Interval", "Duration")
+                except Exception:
+                    res_problem = False
+            if not res_problem:
+                try:
+                    from pyvc.values import Unsupported
+                except Exception:          # native replay (no solver installed there)
+                    Unsupported = RuntimeError
+                raise Unsupported("the contract of %s cannot be evaluated on this rule any more (%s: %s)" % (name, type(e).__name__, e))
             out.append(("result-has-the-shape-the-contract-speaks-about", sorted(SPEC_PROPS.get(name, ())) or ["C15"], False))
     return out
